@@ -42,14 +42,16 @@ func skewEvalAll(c *WCase) (Outcome, string) {
 					o = Outcome{"ctorerr", 0}
 					return
 				}
-				var p interface {
-					LogPdf(ad.Scalar, ad.ConstVector) error
-				} = d
+				p := d
 				if r0 != 0 {
 					p = d.Clone()
 				}
 				r := ad.NewScalar(ad.Real64Type, r0)
-				if err := p.LogPdf(r, vecOf(ad.Float64Type, c.XV)); err != nil {
+				method := p.LogPdf
+				if c.Pdf {
+					method = p.Pdf
+				}
+				if err := method(r, vecOf(ad.Float64Type, c.XV)); err != nil {
 					o = Outcome{"err", 0}
 					return
 				}
@@ -121,8 +123,12 @@ func skewCaseCoq(c WCase, o Outcome) string {
 	if o.Kind == "err" {
 		obs = "OErrDim"
 	}
-	return fmt.Sprintf("(forall lerfc, %sagrees (skew_eval lerfc %s %s %s %s %s %s %s) %s)", hyp,
-		RList(c.Xi), RMat(c.Omega), RList(c.Alpha), RList(c.Scale), RMat(c.SInv), RL(c.SDet), RList(c.XV), obs)
+	wrap := ""
+	if c.Pdf {
+		wrap = "pdf_of ("
+	}
+	return fmt.Sprintf("(forall lerfc, %sagrees (%sskew_eval lerfc %s %s %s %s %s %s %s%s) %s)", hyp, wrap,
+		RList(c.Xi), RMat(c.Omega), RList(c.Alpha), RList(c.Scale), RMat(c.SInv), RL(c.SDet), RList(c.XV), wclose(wrap), obs)
 }
 
 // ln (2 phi_K(x - xi) Phi(alpha . diag(s)^-1 (x - xi))) with the own Gauss-Jordan inverse of K
@@ -157,6 +163,19 @@ func refSkew(c WCase) (float64, bool) {
 
 func skewCheck(c WCase, report func(Failure), tried *int) {
 	*tried++
+	{ // the Pdf method against the LogPdf method
+		cl, cp := c, c
+		cl.Pdf, cp.Pdf = false, true
+		lo, _ := skewEvalAll(&cl)
+		po, inc := skewEvalAll(&cp)
+		if inc != "" {
+			report(wFailure(cp, "consistency", "Pdf", inc, "identical outcomes"))
+		}
+		if ok, exp := pdfAgrees(lo, po); !ok {
+			report(wFailure(cp, "pdf-exp", "Pdf", fmt.Sprintf("%s %v", po.Kind, po.V), exp))
+		}
+	}
+	c.Pdf = false
 	o, inc := skewEvalAll(&c)
 	if inc != "" {
 		report(wFailure(c, "consistency", "LogPdf", inc, "identical outcomes"))
